@@ -85,6 +85,9 @@ func genCase(t *rapid.T) Case {
 				op.Mode, op.N, op.D = "page", rapid.IntRange(0, 40).Draw(t, "page"), rapid.IntRange(-1, 1).Draw(t, "pd")
 			}
 			c.Ops = append(c.Ops, op)
+		} else if rapid.IntRange(0, 11).Draw(t, "isindex") == 0 {
+			// someone asks the chunks of the file for their offset index (loaded lazily when the file was opened without it)
+			c.Ops = append(c.Ops, ROp{K: "index"})
 		} else if rapid.IntRange(0, 11).Draw(t, "isreset") == 0 {
 			// Reset (readers that have it): back to the first row
 			c.Ops = append(c.Ops, ROp{K: "reset"})
@@ -171,7 +174,7 @@ func runCase(c Case, o *kit.Obs) *kit.Failure {
 		return kit.Failf("harness/split", "%v", err)
 	}
 
-	var f *parquet.File
+	var f, fx *parquet.File
 	var rg parquet.RowGroup
 	if c.Kind == "Buffer" {
 		b := parquet.NewBuffer(pq.BuildSchema(&c.Schema))
@@ -212,6 +215,15 @@ func runCase(c Case, o *kit.Obs) *kit.Failure {
 		if err != nil {
 			return kit.Failf("c08/open-error", "%v", err)
 		}
+		// a second handle of the same bytes, opened with its page index: the harness takes the page
+		// boundaries from it, so that the handle under test is not made to load its index lazily
+		var fxo []parquet.FileOption
+		if c.Enc > 0 {
+			fxo = append(fxo, parquet.WithDecryption(pq.FooterKeyOnly("0123456789abcdef")))
+		}
+		if fx, err = pq.Open(data, fxo...); err != nil {
+			return kit.Failf("c08/open-error", "%v", err)
+		}
 	}
 
 	// choose the reader and the slice of the model it covers
@@ -221,8 +233,8 @@ func runCase(c Case, o *kit.Obs) *kit.Failure {
 	var firstRows []int64
 	forwardOnly := false
 	maxPages := 0
-	pageStarts := func(rg parquet.RowGroup, base int64) {
-		for ci, cc := range rg.ColumnChunks() {
+	pageStarts := func(gi int, base int64) {
+		for ci, cc := range fx.RowGroups()[gi].ColumnChunks() {
 			if oi, err := cc.OffsetIndex(); err == nil && oi != nil {
 				if oi.NumPages() > maxPages {
 					maxPages = oi.NumPages()
@@ -245,8 +257,8 @@ func runCase(c Case, o *kit.Obs) *kit.Failure {
 		defer r.Close()
 		rr = r
 		base := int64(0)
-		for _, g := range f.RowGroups() {
-			pageStarts(g, base)
+		for gi, g := range f.RowGroups() {
+			pageStarts(gi, base)
 			base += g.NumRows()
 		}
 	case "MultiRowGroup":
@@ -271,8 +283,8 @@ func runCase(c Case, o *kit.Obs) *kit.Failure {
 		defer r.Close()
 		rr = r
 		base := int64(0)
-		for _, g := range f.RowGroups() {
-			pageStarts(g, base)
+		for gi, g := range f.RowGroups() {
+			pageStarts(gi, base)
 			base += g.NumRows()
 		}
 	case "Column.Pages":
@@ -286,8 +298,8 @@ func runCase(c Case, o *kit.Obs) *kit.Failure {
 		pages = col.Pages()
 		defer pages.Close()
 		base := int64(0)
-		for _, g := range f.RowGroups() {
-			if oi, err := g.ColumnChunks()[c.Col].OffsetIndex(); err == nil && oi != nil {
+		for gi, g := range f.RowGroups() {
+			if oi, err := fx.RowGroups()[gi].ColumnChunks()[c.Col].OffsetIndex(); err == nil && oi != nil {
 				for p := 0; p < oi.NumPages(); p++ {
 					firstRows = append(firstRows, base+oi.FirstRowIndex(p))
 				}
@@ -311,8 +323,8 @@ func runCase(c Case, o *kit.Obs) *kit.Failure {
 		rr = sk
 		forwardOnly = true
 		base := int64(0)
-		for _, g := range f.RowGroups() {
-			pageStarts(g, base)
+		for gi, g := range f.RowGroups() {
+			pageStarts(gi, base)
 			base += g.NumRows()
 		}
 	case "MergeRowGroups.Rows(forward-only)":
@@ -357,7 +369,7 @@ func runCase(c Case, o *kit.Obs) *kit.Failure {
 			lo += gs[i].NumRows()
 		}
 		hi = lo + gs[gi].NumRows()
-		pageStarts(gs[gi], 0)
+		pageStarts(gi, 0)
 		if c.Kind == "Pages" {
 			pages = gs[gi].ColumnChunks()[c.Col].Pages()
 			defer pages.Close()
@@ -370,7 +382,7 @@ func runCase(c Case, o *kit.Obs) *kit.Failure {
 	model := wantRows[lo:hi]
 	n := int64(len(model))
 	cursor := int64(0)
-	seeks, backward, seekSeek, resets := 0, 0, 0, 0
+	seeks, backward, seekSeek, resets, indexLoads := 0, 0, 0, 0, 0
 	lastWasSeek := false
 	for i, op := range c.Ops {
 		switch op.K {
@@ -403,6 +415,16 @@ func runCase(c Case, o *kit.Obs) *kit.Failure {
 			}
 			lastWasSeek = true
 			cursor = k
+		case "index":
+			if f != nil {
+				for _, g := range f.RowGroups() {
+					for _, cc := range g.ColumnChunks() {
+						cc.OffsetIndex()
+						cc.ColumnIndex()
+					}
+				}
+				indexLoads++
+			}
 		case "reset":
 			if rs, ok := rr.(interface{ Reset() }); ok && rr != nil {
 				rs.Reset()
@@ -492,6 +514,7 @@ done:
 	}
 	o.ClassIf(seekSeek > 0, "seek-seek")
 	o.ClassIf(resets > 0, "reset")
+	o.ClassIf(indexLoads > 0 && c.SkipIndex, "index-loaded-lazily-mid-history")
 	o.ClassIf(backward > 0, "backward")
 	o.ClassIf(c.Async, "async")
 	o.ClassIf(c.SkipIndex, "no-page-index")
